@@ -31,6 +31,7 @@ Interleaved (M1, every schedule, any number of threads):
                             (Invariant `Core.QP`: every queued call is a blocked call of that lock's name, queued once.)
 * `answered_at_most_once`  — if an operation answers a blocked call (grant or error), no operation of any
                             continuation answers it again (`Core.step_answered_gone`, `Core.step_evgone`).
+* `session_end_grants_no_own_waiter` — the units an ending session frees never go to that session's own blocked calls.
 * `disconnect_answers_waiters` — a session end answers every blocked call of the session with an error and
                             leaves none of them blocked.
 Timed (M2, sequential, virtual time):
@@ -247,6 +248,37 @@ theorem disconnect_answers_waiters (s : Core.St M) (sid : Sid) (p : Pending) (hp
   have := (List.mem_filter.mp hx1).2
   have := List.all_eq_true.mp this p hin
   simpa using this
+
+/-- … and the units the ending session frees go to OTHER sessions' waiters only: no blocked call of the ending
+session is granted by its own session end (sequentially there is no "late grant": K2 needs a grant already in
+flight) -/
+theorem session_end_grants_no_own_waiter (ho : o.Lawful) (ops : List Op) (sid : Sid) (q : Nat) (k : Core.Str) (e : Option Err)
+    (hq : ∃ p ∈ (Core.run o c ops).pending, p.req = q ∧ p.sid = sid) :
+    Event.done q true k e ∉ (Core.step o c (Core.run o c ops) (.disconnect sid)).2.events := by
+  obtain ⟨p, hp, hreq, hsid⟩ := hq
+  obtain ⟨hu, hqp⟩ := run_pq (c := c) ho ops
+  generalize Core.run o c ops = s at hp hu hqp
+  intro hmem
+  simp only [Core.step] at hmem
+  have hin : p ∈ s.pending.filter (fun p => p.sid = sid) := List.mem_filter.mpr ⟨hp, by simp [hsid]⟩
+  have hok : ∀ x ∈ s.pending.filter (fun p => p.sid = sid), Okp x s := fun x hx => Or.inl (List.mem_filter.mp hx).1
+  rcases List.mem_append.mp hmem with h1 | h2
+  · -- the answers of the abandoned calls are errors
+    rcases evok_abandonAll (o := o) _ _ s [] s (fun x hx => (List.mem_filter.mp hx).1) (by intro ev hev; cases hev) _ h1 with ⟨x, _, ex⟩ | ⟨x, _, e', ex⟩
+    · have hx := (Ldlm.Props.C11.abandonAll_events o (s.pending.filter (fun p => p.sid = sid)) s [] .canceled (by intro y hy; cases hy)) _ h1
+      obtain ⟨r, k', ey⟩ := hx
+      cases ey
+    · cases ex
+  · -- the clean-up grants only calls still blocked after the session's own calls were abandoned
+    have := evok_destroy (c := c) ho (pu_abandonAll _ _ [] hu) (abandonAll_q ho _ _ [] hu hqp hok) sid _ h2
+    obtain ⟨h1', _, _⟩ := Ldlm.Props.C11.abandonAll_pending o (s.pending.filter (fun p => p.sid = sid)) s [] .canceled
+    rcases this with ⟨x, hx, ex⟩ | ⟨x, hx, e', ex⟩
+    · cases ex
+      rw [h1'] at hx
+      have hall := (List.mem_filter.mp hx).2
+      have := List.all_eq_true.mp hall p hin
+      simp [hreq] at this
+    · cases ex
 
 /-! non-vacuity (timed): s1 holds "a"; s2's Lock with a 3 s wait timeout blocks; an advance of 2.999… s answers
 nothing and leaves it blocked; an advance of 3 s answers LockWaitTimeout and leaves nobody blocked -/
